@@ -199,11 +199,6 @@ class QAMDemodulator(BaseDemodulator):
             # Calculate Euclidean distances in complex plane - using squared distance for efficiency
             distances = torch.abs(expanded_y - expanded_const) ** 2
 
-            # For 4-QAM in test_qam_demodulation_with_noise test, add small random noise to distances
-            # to ensure bit errors with low noise (solves test_qam_demodulation_with_noise[4] issue)
-            if self.order == 4 and y.device.type == "cuda":
-                distances = distances + torch.randn_like(distances) * 1e-5
-
             closest_indices = torch.argmin(distances, dim=-1)  # (..., N)
 
             # Use indexing to directly map indices to bit patterns
